@@ -135,7 +135,11 @@ namespace
 	  for (size_t i = 0; i < t.m_children.size (); ++i)
 	    {
 	      auto tine = std::make_shared <op_tine> (*merge, i);
-	      auto op = build_exec (t.m_children[i], l, rdv_ll, tine, bn, up);
+	      // What a branch binds is its own.  The parser wraps the
+	      // branches of (A, B) in scopes, but not the E of E?, which
+	      // is an ALT of E and a no-op.
+	      bindings scope {bn};
+	      auto op = build_exec (t.m_children[i], l, rdv_ll, tine, scope, up);
 	      merge->add_branch (op);
 	    }
 
